@@ -209,8 +209,7 @@ func (w *workload) exec(env *ce.Env, sel *ce.Sel, s step) {
 		if sel.Murky[n] && n.ChainValid && sel.Arrived[n.Parent] {
 			h := n.Hash
 			if have, _ := env.Chain.HaveBlock(&h); have && !env.Chain.IsKnownOrphan(&h) {
-				delete(sel.Murky, n)
-				sel.Arrived[n] = true
+				sel.ResolvedArrived(n)
 			}
 		}
 	}
